@@ -275,6 +275,7 @@ def main():
         "functions_under_contract": {q: {"sha": r.get("sha"), "line": r.get("line"), "paths": r.get("paths"), "wall_s": r.get("wall_s")} for q, r in sorted(proofs.items())},
         "undischarged": {oid: {"status": r["status"], "note": (r.get("note") or "")[:200]} for oid, r in sorted(bad.items())},
         "solver_ms_total": round(sum(r.get("ms", 0) or 0 for r in obl.values()), 1),
+        "discharged_by": _count("%s/%s" % (r.get("backend", "static"), r.get("strategy") or "-") for r in obl.values() if r["status"] == "discharged"),
         "samples": samples,
         "source_files": _hashes(src),
         "known_findings": [f.get("what_fails", f.get("obligation")) for f in open_f],
@@ -297,6 +298,13 @@ def main():
     print("%s: %d/%d obligations discharged, %s, %.1fs" % (prop, n_dis, n_obl,
           "native %d evaluations, %d failures" % (native.get("evaluations", 0), len(native.get("failures", []))) if native else "no native stand-in", time.time() - t0))
     sys.exit(1 if violations else 0)
+
+
+def _count(it):
+    out = {}
+    for x in it:
+        out[x] = out.get(x, 0) + 1
+    return out
 
 
 def _has_ghost_folds(r):
